@@ -302,7 +302,8 @@ impl<A: SemApi> SemInner<A> {
             out.push(Ev::new(TRY_ACQUIRE, n, 0));
         }
         let cap = if self.bounded { BOUND_TOTAL } else { FREE_TOTAL };
-        for n in 1..3usize {
+        // release(0) is legal and must be a no-op
+        for n in 0..3usize {
             if self.total() + n <= cap {
                 out.push(Ev::new(RELEASE, n as u8, 0));
             }
@@ -326,6 +327,7 @@ impl<A: SemApi> SemInner<A> {
             (TRY_ACQUIRE, 3) => 8,
             (TRY_ACQUIRE, _) => 2,
             (DISARM, _) => 1,
+            (RELEASE, _) if ev.a == 0 => 1,
             (RELEASE, _) => 5,
             (DROP_REL, _) => 5,
             _ => 4,
@@ -410,8 +412,13 @@ impl<A: SemApi> SemInner<A> {
             }
             RELEASE => {
                 let sem = &self.sem;
+                let mark = crate::wakers::log_mark();
                 call(ctx, "release", 0, 0, || sem.release(a));
                 self.model += a;
+                if a == 0 {
+                    let woke = crate::wakers::log_mark() - mark;
+                    ctx.check("C05", "release-of-zero-permits-is-a-no-op", true, woke == 0, || format!("release(0) woke {} waker(s)", woke));
+                }
             }
             DROP_REL => {
                 let (r, amt) = self.rels.remove(a);
